@@ -6,14 +6,21 @@ From TT Require Import Lib.Base Model.Result.
 Record input := {
   stack : adapter;
   set_after : option bool;     (* failfast assigned on the outermost object after wrapping *)
-  hist : list op
+  hist : list op;
+  (* Some (programs, schedule): the stack is a ThreadsafeForwardingResult; after the calls [hist] one more such
+     adapter per program is put over the same target with the same semaphore, and thread j makes the calls of
+     program j on adapter j, interleaved as the schedule says (Model.Result.run_sched) *)
+  conc : option (list (list op) * list nat)
 }.
 
 Record obs := {
   o_ok : list bool;                  (* wasSuccessful() of the outermost object after each call *)
   o_stop : list bool;                (* its shouldStop after each call *)
   o_leaf_stop : list (list bool);    (* after each call: shouldStop of every underlying result, depth first *)
-  o_sums : list (list summary)       (* per underlying result: the summaries its TextTestResult wrote *)
+  o_sums : list (list summary);      (* per underlying result: the summaries its TextTestResult wrote *)
+  o_order : list nat                 (* concurrent part: the thread of each call, in the order in which the calls
+                                        were seen to take effect (observed when the adapter releases the semaphore,
+                                        or when the call returns without having released it) *)
 }.
 
 (* ---------- what the history says ---------- *)
@@ -155,7 +162,24 @@ Definition sums_okb (i : input) (o : obs) : bool :=
                            else match sums with [] => true | _ => false end)
            (leaf_infos (stack i)) (o_sums o).
 
-Definition spec_okb (i : input) (o : obs) : bool := verdict_okb i o && stop_okb i o && sums_okb i o.
+(* the statement for calls made one after the other *)
+Definition spec_seq (i : input) (o : obs) : bool := verdict_okb i o && stop_okb i o && sums_okb i o.
+
+(* the same stack and failfast configuration, driven with the calls h one after the other *)
+Definition with_hist (i : input) (h : list op) : input :=
+  {| stack := stack i; set_after := set_after i; hist := h; conc := None |}.
+
+(* Calls from several threads: every call of every thread is seen to take effect exactly once, per thread in
+   program order (so a stop() that returns has reached the target), and what is observed after each of them is
+   what the statement says for these calls made one after the other in that order. *)
+Definition spec_okb (i : input) (o : obs) : bool :=
+  match conc i with
+  | None => is_nil (o_order o) && spec_seq i o
+  | Some (ths, _) => match merge ths (o_order o) with
+                     | Some h => spec_seq (with_hist i (hist i ++ h)) o
+                     | None => false
+                     end
+  end.
 
 (* ---------- readable form ---------- *)
 Definition Summary_ok (tfr : bool) (h : list op) (s : summary) : Prop :=
@@ -164,7 +188,7 @@ Definition Summary_ok (tfr : bool) (h : list op) (s : summary) : Prop :=
   /\ (forall n, s_failed s = Some n -> n = length (problems (since_run h)))
   /\ (forall x, count sec_eqb x (s_sections s) = count sec_eqb x (problems (since_run h))).
 
-Definition Spec (i : input) (o : obs) : Prop :=
+Definition Spec_seq (i : input) (o : obs) : Prop :=
   (has_e2s i = false -> has_foreign i = false ->
      Forall2 (fun h ok => ok = want_ok h) (prefixes (hist i)) (o_ok o))
   /\ Forall2 (fun h stops => Forall2 (fun li s => s = want_leaf_stop i h li) (leaf_infos (stack i)) stops)
@@ -175,6 +199,12 @@ Definition Spec (i : input) (o : obs) : Prop :=
                              else sums = [])
              (leaf_infos (stack i)) (o_sums o).
 
+Definition Spec (i : input) (o : obs) : Prop :=
+  match conc i with
+  | None => o_order o = [] /\ Spec_seq i o
+  | Some (ths, _) => exists h, merge ths (o_order o) = Some h /\ Spec_seq (with_hist i (hist i ++ h)) o
+  end.
+
 (* MultiTestResult() without members cannot be constructed (IndexError) *)
 Fixpoint wf_stack (a : adapter) : bool :=
   match a with
@@ -182,7 +212,17 @@ Fixpoint wf_stack (a : adapter) : bool :=
   | AMulti l => match l with [] => false | _ => forallb wf_stack l end
   | ATFR x | AE2O x | ADeco _ x => wf_stack x
   end.
-Definition wf (i : input) : Prop := wf_stack (stack i) = true.
+(* what a thread does with its adapter: the forwarding calls (startTestRun, add*, stop, stopTestRun) *)
+Definition conc_op (o : op) : bool :=
+  match o with StartRun | StopRun | Outcome _ _ _ | StopAt [] => true | _ => false end.
+Definition wf_conc (i : input) : bool :=
+  match conc i with
+  | None => true
+  | Some (ths, _) => match stack i with ATFR _ => true | _ => false end
+                     && match set_after i with None => true | Some _ => false end
+                     && forallb (forallb conc_op) ths
+  end.
+Definition wf (i : input) : Prop := wf_stack (stack i) = true /\ wf_conc i = true.
 
 (* ---------- known finding F18 ----------
    Which underlying results the stack, as configured, really stops at an error / failure / unexpected
